@@ -211,7 +211,8 @@ class DictsGeneratorView(DictsView):
         self._cached = 0
 
     def __iter__(self):
-        if not self._header:
+        if self._header is None:
+            # N.B., an empty header is a valid result, don't sample again
             self._determine_header()
         yield self._header
 
